@@ -7,7 +7,8 @@
 From Coq Require Import String.
 From Emmet Require Import lib.Base lib.StrLit model.MarkupTokenizer model.MarkupParser model.MarkupConvert
      model.MarkupResolve proofs.ParserSpine proofs.TextSpec proofs.TextProofs proofs.TextParse proofs.TextLiteral
-     proofs.TextConvert proofs.TextForest proofs.TextWrap.
+     proofs.TextConvert proofs.TextForest proofs.TextWrap proofs.TextWrapLeaf model.OutStream model.FormatHtml
+     proofs.TextStream proofs.TextHtml.
 
 (* text_literal.  For EVERY payload T whose braces balance modulo escapes and whose `$` are escaped --
    operators, brackets, quotes, `*`, white space, line breaks, unicode included -- the front end
@@ -103,9 +104,76 @@ Theorem C04_deepest_last_element :
 Proof. exact insert_into_deepest_last. Qed.
 Print Assumptions C04_deepest_last_element.
 
+(* wrap_implicit made concrete for X = `name{text}`: with `$#` anywhere in the text every copy carries
+   its trimmed line at EACH `$#`; without, the line follows the text.  All line lists, all texts made of
+   literal tokens and placeholders. *)
+Theorem C04_wrap_text_leaf :
+  forall (env : cenv) (mr : option N) (lines : list str) (name : str) (nt t : token) (vs : list token) (r0 : rep),
+    ce_text env = WList lines ->
+    name <> [] -> tk nt = TLiteral name -> Forall simple_tok (t :: vs) -> rimplicit r0 = true ->
+    let L := wrap_lines lines in
+    (Z.of_nat (length L) <= match mr with Some m => Z.of_N m | None => 1000000 end)%Z ->
+    convert env mr [TElem (Some [nt]) None (Some (t :: vs)) (Some r0) false []] =
+      Ok (map (fun j =>
+                 ANode (Some name)
+                       (Some [VStr (if existsb is_ph (t :: vs)
+                                    then render_all (nth j L []) (t :: vs)
+                                    else render_all [] (t :: vs) ++ nth j L [])])
+                       (Some (mkRep (N.of_nat (length L)) (N.of_nat j) true)) None [] false)
+              (seq 0 (length L))).
+Proof. exact wrap_text_leaf. Qed.
+Print Assumptions C04_wrap_text_leaf.
+
+(* text_not_reparsed.  A text value is handed to the stream as the same string: push_tokens passes it to
+   push_string, which writes its lines -- each verbatim -- separated by the configured newline and the
+   indentation in force, and nothing else.  No tokenizer is involved anywhere on this path (the model's
+   push_tokens / os_push_string do not mention one). *)
+Theorem C04_text_not_reparsed :
+  forall (c : oconfig) (s : str) (st : fstate),
+    os_value (fs_out (push_tokens c [VStr s] st)) =
+      os_value (fs_out st) ++ join (line_sep (oc_fmt c) (os_level (fs_out st))) (split_crlf s).
+Proof. exact text_not_reparsed. Qed.
+Print Assumptions C04_text_not_reparsed.
+
+(* ... the lines are the text cut at CR / LF / CRLF only: every other character survives, in order *)
+Theorem C04_lines_keep_characters :
+  forall s : str, concat (split_crlf s) = filter (fun c => negb (is_crlf c)) s.
+Proof. exact split_crlf_chars. Qed.
+Print Assumptions C04_lines_keep_characters.
+
+(* ... and text without CR / LF is appended to the stream as it is, whatever else it contains *)
+Theorem C04_push_string_verbatim :
+  forall (f : ofmt) (o : ostream) (s : str),
+    forallb (fun c => negb (is_crlf c)) s = true ->
+    os_value (os_push_string f o s) = os_value o ++ s.
+Proof. exact push_string_verbatim. Qed.
+Print Assumptions C04_push_string_verbatim.
+
+(* children_after_text.  For every named element with a (field-free) value, whatever its attributes,
+   children, position and the options: element() = opening part; then the element's own text; then
+   the walk over its children; then the closing part. *)
+Theorem C04_children_after_text :
+  forall (c : oconfig) (parent : option anode) (nm0 : char) (nm : str) (v0 : vtok) (value : list vtok)
+         (rp : option rep) (at_ : option (list aattr)) (ch : list anode) (sc : bool)
+         (index : nat) (items : list anode) (st : fstate),
+    no_field (v0 :: value) ->
+    let node := ANode (Some (nm0 :: nm)) (Some (v0 :: value)) rp at_ ch sc in
+    html_element c parent node index items st =
+      close_part c parent node index items
+        (html_children c node (text_part c (v0 :: value) (open_part c parent node index items st))).
+Proof. exact children_after_text. Qed.
+Print Assumptions C04_children_after_text.
+
 (* non-vacuity: a payload full of syntax satisfies the hypotheses, and the theorem's conclusion computes *)
 Example C04_nonvacuous :
   name_ok (S "p") /\ bal 0 (S "a>b*3 \{x\} {(y)} [""] \$") = true /\
   parse_abbr false (mkCenv WNone [] false) None (S "p{ *>\}{+}}") =
     Ok [ANode (Some (S "p")) (Some [VStr (S " *>}{+}")]) None None [] false].
 Proof. split; [split; [discriminate|repeat constructor]|split; vm_compute; reflexivity]. Qed.
+
+(* non-vacuity of the wrap theorems: `li{[$#]}*` over lines that look like syntax, with a blank line *)
+Example C04_wrap_nonvacuous :
+  parse_abbr false (mkCenv (WList [S " ul>li*3 "; S "  "; S "$$"]) [] false) None (S "li{[$#]}*") =
+    Ok [ANode (Some (S "li")) (Some [VStr (S "[ul>li*3]")]) (Some (mkRep 2 0 true)) None [] false;
+        ANode (Some (S "li")) (Some [VStr (S "[$$]")]) (Some (mkRep 2 1 true)) None [] false].
+Proof. vm_compute. reflexivity. Qed.
